@@ -26,6 +26,7 @@ from common import Violation
 
 TITLE = "each sequence is exactly one model"
 LEVEL = "proof"
+DOMAINS = ['Compile', 'Design']
 
 MODEL_CAP = 20000
 
